@@ -20,7 +20,7 @@ ASSUMPTIONS = [
     'an inner Read returning 0 means end of data (std contract)',
 ]
 MANIFEST = {'text': 'proof of the structural conditions behind "never signals end-of-data early / keeps low-mark look-ahead": production low-mark covers a maximal message and the buffer has room, '
-                    'EOF is latched only by an empty read, the refill loop cannot be left short of the low mark except by EOF/full buffer/error, fill_buf returns buf[pos..cap], consume clamps.'}
+                    'EOF is latched only by an empty read, the refill loop cannot be left short of the low mark except by EOF/full buffer/error, fill_buf returns buf[pos..cap], consume clamps, and the message iterator advances only by a parsed length or one byte.'}
 
 RD = 'adlt::utils::lowmarkbufreader::LowMarkBufReader'
 
@@ -82,6 +82,17 @@ def run(F, chk):
     for b in fb:
         check_fill(b, M2)
         check_full_exit(b, M4, cl)
+    M6 = chk.rule('M6', 'compaction keeps buf[i] <-> abs_pos + i for the copied window; if it leaves a stale prefix buf[0..offset), every Seek store to pos is bounded below by a field recording that offset')
+    check_seek_window(F, M6)
+    # M5: the consumer side.  The look-ahead guarantee is only worth something if the iterator's progress between two parse
+    # attempts does not depend on how much happens to be buffered: it consumes either the length the parser reported or one byte.
+    import c01
+    from report import RuleResult
+    M5 = chk.rule('M5', 'DltMessageIterator: between two parse attempts it consumes exactly the parsed message length or exactly one byte (never an amount derived from the buffered window)')
+    nexts = [b for b in F.order if b.path.startswith('<' + c01.IT) and b.impl_trait == 'std::iter::Iterator' and b.path.endswith('::next')]
+    M5.floor('DltMessageIterator::next', len(nexts), 1)
+    for b in nexts:
+        c01.check_iterator(b, M5, RuleResult('K2', 'not part of C04'))
     for b in cs:
         cfg = CFG(b)
         E = ExprBuilder(cfg, fold_named=True)
@@ -266,3 +277,105 @@ def check_full_exit(b, M4, cl):
                          'so fill_buf returns short look-ahead although the source has more data' % (b.loc(blk.term.sp), cl), where=b.loc(blk.term.sp), witness={'block_path': ex.witness(blk.i, bad[0])})
         else:
             M4.ok(sample={'buffer_full_exit_at': b.loc(blk.term.sp), 'pos_small_on_all_paths': True})
+
+
+# ---------------------------------------------------------------------------------------------
+# M6: seek-within-buffer never re-exposes the stale prefix left by compaction
+
+def check_seek_window(F, M6):
+    """Compaction moves the unread bytes to buf[offset..] (copy_within(pos..cap, offset)); when `offset` can be non-zero the
+    bytes buf[0..offset) are leftovers of the previous window.  Every externally controlled store to `pos` (Seek) must
+    therefore be bounded below by a quantity that the compaction sets to that same `offset` (stated belief: valid data
+    starts at offset) - a lower bound of abs_pos alone (= buf[0]) re-exposes the stale prefix."""
+    fb = [b for b in F.order if b.path.startswith('<' + RD) and b.path.endswith('::fill_buf')]
+    sk = [b for b in F.order if b.path.startswith('<' + RD) and b.impl_trait == 'std::io::Seek' and b.path.endswith('::seek')]
+    M6.floor('fill_buf impl', len(fb), 1)
+    M6.floor('Seek impl', len(sk), 1)
+    if not fb or not sk:
+        return
+    b = fb[0]
+    cfg = CFG(b)
+    E = ExprBuilder(cfg, fold_named=True)
+    M6.fn(b.path)
+    dests = []
+    for blk in b.calls():
+        if blk.term.callee.path.endswith('::copy_within') and len(blk.term.args) >= 3:
+            dests.append((blk, blk.term.args[2]))
+    M6.floor('copy_within compaction sites in fill_buf', len(dests), 1)
+    stale_possible = False
+    window_fields = set()
+    incs = []
+    for b2 in b.blocks:
+        if b2.cleanup:
+            continue
+        for s in b2.stmts:
+            if s.k == 'assign' and show(E.target(s.place)) == '(*self).abs_pos':
+                e = E.rvalue(s.rv)
+                if isinstance(e, tuple) and e[0] == 'bin' and e[1] == 'Add' and show(e[2]) == '(*self).abs_pos':
+                    incs.append(show(e[3]))
+                else:
+                    incs.append('?' + show(e))
+    for (blk, d) in dests:
+        from c11 import const_eval
+        rng = E.operand(blk.term.args[1])
+        start = rng[2][0] if isinstance(rng, tuple) and rng[0] == 'agg' and 'Range' in rng[1] and len(rng[2]) == 2 else None
+        dz = const_eval(E.operand(d)) == 0
+        M6.sites += 1
+        if start is None:
+            M6.violation(('compaction-shape', b.path), 'copy_within source at %s is not a plain start..end range (%s): the window mapping cannot be checked' % (b.loc(blk.term.sp), show(rng)[:60]), where=b.loc(blk.term.sp))
+        else:
+            want = show(start) if dz else 'Sub(%s, %s)' % (show(start), show(E.operand(d)))
+            if incs == [want]:
+                M6.ok(sample={'compaction': 'copy_within(%s.., %s)' % (show(start), show(E.operand(d))), 'abs_pos_advance': want, 'mapping': 'buf[i] <-> abs_pos + i kept for the copied window'})
+            else:
+                M6.violation(('window-mapping', b.path), 'compaction copies buf[%s..] to %s but abs_pos advances by %s (expected %s): buf[i] no longer corresponds to stream offset abs_pos + i' %
+                             (show(start), show(E.operand(d)), incs, want), where=b.loc(blk.term.sp))
+        if dz:
+            continue
+        stale_possible = True
+        if d.place is None:
+            continue
+        # fields of self assigned the very same local in the compaction (same or following straight-line blocks)
+        for b2 in b.blocks:
+            if b2.cleanup:
+                continue
+            for s in b2.stmts:
+                if s.k == 'assign' and show(E.target(s.place)).startswith('(*self).'):
+                    if show(E.rvalue(s.rv)) == show(E.operand(d)):
+                        window_fields.add(show(E.target(s.place))[len('(*self).'):])
+    if not stale_possible:
+        M6.ok(sample={'compaction_destination': 0, 'stale_prefix': 'none: the whole of buf[0..cap) is stream data at abs_pos + i, so Seek\'s lower bound abs_pos is exact'})
+        return
+    M6.floor('fields recording the compaction offset', len(window_fields), 1)
+    n = 0
+    for sb in sk:
+        c2 = CFG(sb)
+        E2 = ExprBuilder(c2, fold_named=True)
+        M6.fn(sb.path)
+        for blk in sb.blocks:
+            if blk.cleanup:
+                continue
+            for s in blk.stmts:
+                if s.k == 'assign' and show(E2.target(s.place)) == '(*self).pos':
+                    n += 1
+                    M6.sites += 1
+                    lower = []
+                    for (c, truth, D) in guards.known(c2, E2, blk.i):
+                        if not (isinstance(c, tuple) and c[0] == 'bin' and truth is True):
+                            continue
+                        if c[1] in ('Ge', 'Gt'):
+                            bound = c[3]
+                        elif c[1] in ('Le', 'Lt'):
+                            bound = c[2]
+                        else:
+                            continue
+                        lower.append(show(bound))
+                    good = [x for x in lower if any(('(*self).' + f) in x for f in window_fields)]
+                    if good:
+                        M6.ok(sample={'store': 'pos = ' + show(E2.rvalue(s.rv))[:60], 'lower_bound': good[0][:80], 'window_fields': sorted(window_fields)})
+                    else:
+                        M6.violation(('seek-below-window', sb.path),
+                                     'Seek stores pos = %s at %s with lower bounds {%s}; none involves a field that compaction sets to the copy_within destination (%s), so a seek to [abs_pos, abs_pos+offset) is '
+                                     'accepted and fill_buf/read then hand out the stale bytes buf[0..offset) of the previous window' %
+                                     (show(E2.rvalue(s.rv))[:60], sb.loc(s.sp), '; '.join(lower) or 'none', ', '.join(sorted(window_fields))), where=sb.loc(s.sp))
+    M6.floor('stores to pos in Seek', n, 1)
